@@ -72,13 +72,13 @@ def paste_by_plan(im, nodata, r, dst_shape, flipy, flipx):
     return out
 
 
-def unit_family(rng, ns, nd, ttol, stol, small_dev=True):
+def unit_family(rng, ns, nd, ttol, stol, small_dev=True, placements=G.PLACEMENTS):
     """dst->src affine: unit scale (mirrored or not), whole-pixel shift, sub-pixel residue on either
     side of ttol, scale deviation on either side of stol; every placement"""
     sx, sy = rng.choice([1, 1, -1]), rng.choice([1, 1, -1])
     offs = []
     for j, s in ((1, sx), (0, sy)):
-        o = G.place(rng, rng.choice(G.PLACEMENTS), ns[j], nd[j])
+        o = G.place(rng, rng.choice(placements), ns[j], nd[j])
         offs.append(Fr(o + (nd[j] if s < 0 else 0)))
     tt = Fr(ttol)
     st = Fr(stol)
@@ -235,6 +235,26 @@ def p_paste_warp(src_shape, dst_shape, A, kw, dtype, seed):
     (dy0, dy1), (dx0, dx1) = [(s.start, s.stop) for s in r.roi_dst]
     if (sy1 - sy0, sx1 - sx0) != (k * (dy1 - dy0), k * (dx1 - dx0)) or any(v % k for v in (sy0, sy1, sx0, sx1)):
         return False, why + ": roi_src is not roi_dst scaled by read_shrink"
+    # regions inside the images (source: up to the next multiple of k), and roi_dst = exactly the destination
+    # pixels whose centre falls into a pixel of the k-fold overview, each matched with its k x k source block
+    (ny, nx), (my, mx) = src.shape, dst.shape
+    oy, ox = -(-ny // k), -(-nx // k)
+    if not (0 <= dy0 <= dy1 <= my and 0 <= dx0 <= dx1 <= mx and 0 <= sy0 <= sy1 <= k * oy and 0 <= sx0 <= sx1 <= k * ox):
+        return False, why + f": planned regions reach outside the images (source {ny}x{nx}, overview {oy}x{ox}, destination {my}x{mx})"
+    for dy in range(my):
+        for dx in range(mx):
+            px, py = G.aapply(T, (dx + Fr(1, 2), dy + Fr(1, 2)))
+            hx, hy = math.floor(px / k), math.floor(py / k)
+            covered = 0 <= hx < ox and 0 <= hy < oy
+            inside = dx0 <= dx < dx1 and dy0 <= dy < dy1
+            if covered != inside:
+                return False, why + (f": destination pixel (x={dx},y={dy}) maps to overview pixel (x={hx},y={hy}) of a {oy}x{ox} overview "
+                                     f"but is {'inside' if inside else 'outside'} roi_dst")
+            if inside:
+                wx = sx0 // k + (dx - dx0) if a > 0 else sx1 // k - 1 - (dx - dx0)
+                wy = sy0 // k + (dy - dy0) if e > 0 else sy1 // k - 1 - (dy - dy0)
+                if (wx, wy) != (hx, hy):
+                    return False, why + f": destination pixel (x={dx},y={dy}) is paired with overview pixel (x={wx},y={wy}) instead of (x={hx},y={hy})"
     if k != 1:
         return True, why
     im, nodata = mk_image(tuple(src_shape), dtype, rng)
@@ -333,7 +353,49 @@ def p_warp_nodata(src_shape, dst_shape, A, dtype, src_nodata, dst_nodata, seed):
     return True, why
 
 
-PREDICATES = {"paste_warp": p_paste_warp, "can_paste": p_can_paste, "warp_nodata": p_warp_nodata}
+def p_warp_accumulate(dst_shape, tiles, dtype, fill, seed):
+    """several pasteable source tiles loaded one after the other into ONE destination raster: the first warp
+    initialises the destination with the fill, the later ones run with init_dest_nodata=False and must keep
+    what is already there.  Expected: fill everywhere, then each tile's planned paste in turn."""
+    from affine import Affine
+    from odc.geo.overlap import compute_reproject_roi
+    from odc.geo.warp import rio_reproject
+    rng = core.rng(f"c10-acc-{seed}")
+    dshape = tuple(dst_shape)
+    got = np.full(dshape, (not fill) if dtype == "bool" else 77, dtype=dtype)
+    want = np.full(dshape, fill, dtype=dtype)
+    why = ""
+    for t, (src_shape, A) in enumerate(tiles):
+        src, dst = G.mk_pair(tuple(src_shape), dshape, Affine(*[float(Fr(v)) for v in A]))
+        with warnings.catch_warnings():
+            warnings.simplefilter("ignore")
+            r = compute_reproject_roi(src, dst)
+        if not (r.paste_ok and r.read_shrink == 1):
+            return True, "no paste planned"
+        T = G.true_A(src, dst)
+        ny, nx = src_shape
+        if dtype == "bool":
+            im = np.array([[rng.random() < 0.5 for _ in range(nx)] for _ in range(ny)], dtype=bool).reshape(ny, nx)
+        else:
+            im = (np.arange(ny * nx).reshape(ny, nx) + 1 + 50 * t).astype(dtype)     # <= 100, distinct per tile
+        block = im[r.roi_src]
+        if T[4] < 0:
+            block = block[::-1, :]
+        if T[0] < 0:
+            block = block[:, ::-1]
+        want[r.roi_dst] = block
+        kw = {} if t == 0 else {"init_dest_nodata": False}
+        with warnings.catch_warnings():
+            warnings.simplefilter("ignore")
+            rio_reproject(im, got, src, dst, "nearest", dst_nodata=fill, **kw)
+        why += f" tile{t}: roi_src={r.roi_src} roi_dst={r.roi_dst};"
+    if not np.array_equal(got, want):
+        return False, why + f" accumulated warps give {got.tolist()} but the accumulated pastes are {want.tolist()}"
+    return True, why
+
+
+PREDICATES = {"paste_warp": p_paste_warp, "can_paste": p_can_paste, "warp_nodata": p_warp_nodata,
+              "warp_accumulate": p_warp_accumulate}
 
 
 def search(out, tier):
@@ -375,6 +437,32 @@ def search(out, tier):
             kw["padding"] = rng.choice([0, None])
             kw["align"] = rng.choice([0, None])
         run("paste_warp", list(ns), list(nd), [str(v) for v in A6], kw, dtype, i)
+    # integer shrink >= 2 with destinations that overhang / only partly overlap the source footprint
+    for i in range(150 if tier == "quick" else 1500):
+        k = rng.choice([2, 2, 3, 4, 5])
+        ov = (rng.randint(1, 6), rng.randint(1, 6))                      # overview size
+        ns = tuple(max(1, k * o - rng.randint(0, k - 1)) for o in ov)    # every remainder of the source size mod k
+        nd = (rng.randint(1, 9), rng.randint(1, 9))
+        ttol, stol = rng.choice(TTOLS), rng.choice(STOLS)
+        A6 = unit_family(rng, ov, nd, ttol, stol, placements=("left", "right", "cover", "left", "right", "touch_lo", "touch_hi", "inside"))
+        A6 = [v * k for v in A6]
+        if not tie_free(A6, nd):
+            continue
+        out.count("search:shrink-overhang")
+        run("paste_warp", list(ns), list(nd), [str(v) for v in A6], {"ttol": ttol, "stol": stol}, "int16", 100000 + i)
+    # two pasteable tiles accumulated into one destination (second warp with init_dest_nodata=False), every dtype
+    for i in range(6 * len(DTYPES) if tier == "quick" else 60 * len(DTYPES)):
+        dtype = DTYPES[i % len(DTYPES)]
+        nd = (rng.randint(3, 9), rng.randint(3, 9))
+        tiles = []
+        for _ in range(2):
+            ns = (rng.randint(2, 6), rng.randint(2, 6))
+            A6 = unit_family(rng, ns, nd, 0.05, 1e-3, small_dev=False, placements=("inside", "left", "right", "cover"))
+            A6[2], A6[5] = Fr(round(A6[2])), Fr(round(A6[5]))      # whole-pixel shifts: no ties, always pasteable
+            tiles.append([list(ns), [str(v) for v in A6]])
+        fill = rng.choice([False, True]) if dtype == "bool" else rng.choice([0, 120] if dtype.startswith("u") else [-1, 120, 0])
+        out.count(f"accumulate:{dtype}")
+        run("warp_accumulate", list(nd), tiles, dtype, fill, i)
     # every dtype x every way of giving src_nodata / dst_nodata, destinations only partly covered by the source
     reps = 2 if tier == "quick" else 12
     seq = 0
@@ -422,6 +510,7 @@ def run(out, tier, scratch):
     out.assumptions += [
         "GDAL nearest-neighbour warp meets the contract dst[d] = src[floor(A(d+1/2))] if inside else nodata (validated on every run, all dtypes)",
         "numpy slicing semantics of dst[roi_dst] = src[roi_src][::-1] (validated by the CPaste cases)",
+        "accumulating warps: rio_reproject(..., init_dest_nodata=False) writes only covered pixels and keeps the rest of dst (validated for 8 dtypes)",
         "nodata fill of rio_reproject: dst_nodata if given, else NaN for floats, else src_nodata if given, else 0/False; source pixels equal "
         "to src_nodata are invalid (validated for 8 dtypes x every src_nodata/dst_nodata combination on partly covered destinations)",
         "binary64 arithmetic abstracted to exact rationals",
